@@ -55,6 +55,7 @@ class MCU:
         self.poll_ns = int(poll_us * US)
         self.next_id = 0  # per-device copy of RF24NetworkHeader's process-global counter
         self.stalls = 0
+        self.pending_stall = 0   # explicit fault, set by a harness rule: the MCU's next bus/clock operation takes this much longer
 
     def knobs(self):
         return {"spi_overhead_us": self.spi_overhead // US, "spi_jitter_us": self.spi_jitter // US,
@@ -64,6 +65,10 @@ class MCU:
                 "poll_us": self.poll_ns // US}
 
     def _stall(self):
+        if self.pending_stall:
+            d, self.pending_stall = self.pending_stall, 0
+            self.stalls += 1
+            return d
         if self.stall_prob and self.rng.random() < self.stall_prob:
             self.stalls += 1
             return self.rng.randint(*self.stall_ns)
